@@ -27,6 +27,10 @@ EXCLUDE_DEN_PAREN = syntaxgen.excluded('DEN_PAREN')
 RISK_DEN = 'denotation_parenthesised_argument'
 RISK_AGG = syntaxgen.RISK_AGG
 
+# DOMAIN RESTRICTION (not a finding).  Layout is made of blank, tab and newline.  Other
+# characters that Python's str.isspace() accepts (U+00A0, U+2003, \x1c-\x1f ..) are
+# stripped by the Python parser and not by the C++ parser (std::isspace), e.g.
+# `P(x) :-\u00a0Q(x)`; no document makes them layout of the language.
 WS = [' ', ' ', '  ', '\n', '\n', '\t', '\n  ', ' \n', '\n\n', '   ']
 
 
